@@ -10,6 +10,26 @@ tie:    translator (harness/translate/gen_c12.py): the machine the theorems are 
 search: oracle written from the property statement (exact A-orthogonal projection onto the shifted
         Krylov space, residual identity, monotone A-norm error, finite termination, caller's array,
         stop on non-positive curvature) on the real class, exact and float.
+
+input classes explored (the property quantifies over inputs, configurations AND histories):
+  * operators: A as MatMul Linop, sum of two Linops, sigpy Identity / `lambda v: v` (returns its argument
+    object), plain function, function that returns its own re-used output buffer; vector shape (n,1), (n,)
+    or 2-D (n1,n2);  P none / diagonal (function, sigpy Multiply, buffer-reusing function) / dense /
+    identity returning its argument object / identity returning a VIEW of its argument
+  * memory: x and b as contiguous, Fortran-ordered, strided (every other element of a larger array),
+    negative-stride and column-of-a-wider-array views, b optionally read-only; the cells of the larger
+    array around the caller's x must stay untouched
+  * dtypes (float run): b held in an int64 or float64 array while A / x are float / complex; a real system
+    with x held in a complex array
+  * magnitudes (float run): A, b (and x0), P multiplied by independent powers of two 2^sa, 2^sb, 2^sp
+    (|sa| <= 100, |sb| <= 150, |sp| <= 40); the state is scaled back exactly before it is compared, so the
+    same oracle and tolerances apply (CG is exactly equivariant under power-of-two scaling)
+  * histories: several solvers alive at the same time (same or different system / preconditioner / form,
+    usually the same vector shape and dtype, optionally the SAME b array and the SAME operator object),
+    constructed at different times and advanced in lock-step or randomly interleaved; solvers run to
+    completion one after the other; a solver warm-started on the array an earlier solver wrote into.
+    Every solver must satisfy the statement for ITS system after each of ITS updates, and must not change
+    while another solver is constructed or advanced.
 """
 import json
 import sys
@@ -67,98 +87,283 @@ def _herm_any(rng, n, cplx):
     return [A[i][j] for i in range(n) for j in range(n)]
 
 
-def gen_instance(rng, nmax=8, akinds=("pd", "pd", "pd", "pd", "indef", "psd")):
-    n = rng.randint(1, nmax)
-    cplx = rng.random() < 0.55
+LAYOUTS = ("c", "c", "c", "strided", "rev", "col", "F")
+PD_KINDS = ("pd", "eye")       # akinds for which the whole statement is demanded
+
+
+def _gen_P(rng, n, cplx):
+    pk = rng.choice(["none", "none", "diag", "diag", "dense", "ident", "identview"])
+    if pk in ("ident", "identview"):
+        # a preconditioner that returns its input OBJECT (sigpy.linop.Identity / lambda r: r) or a VIEW of its input
+        # (sigpy.linop.Reshape / lambda r: r[...]): valid (the identity is Hermitian PD) and the only way to observe
+        # whether __init__ gives p its own storage
+        return [pk, [[1, 0] for _ in range(n)]], "plain"
+    if pk == "diag":
+        return ["diag", [[rng.randint(1, 5), 0] for _ in range(n)]], rng.choice(["plain", "linop", "buf"])
+    if pk == "dense":
+        return ["dense", _herm_pd(rng, n, cplx)], rng.choice(["plain", "plain", "buf"])
+    return ["none", []], "plain"
+
+
+def _gen_shape(rng, n, form):
+    if form == "linop":
+        return [n, 1]
+    divs = [d for d in range(2, n) if n % d == 0]
+    if divs and rng.random() < 0.4:
+        d = rng.choice(divs)
+        return [d, n // d]
+    return [n]
+
+
+def _gen_scale(rng, inst):
+    """powers of two for A, for b (x0 is scaled by 2^(sb-sa) so that the problem stays the same), for P"""
+    sa = 0 if inst.get("aimpl") == "eyeobj" else rng.randint(-100, 100)
+    sb = rng.randint(0, 20) if inst["dt"]["b"] == "int" else rng.randint(-150, 150)
+    sp = 2 * rng.randint(-20, 20) if inst["P"][0] in ("diag", "dense") else 0
+    return [sa, sb, sp]
+
+
+def gen_instance(rng, nmax=8, akinds=("pd", "pd", "pd", "pd", "pd", "indef", "psd", "eye"), n=None, cplx=None, plainish=0.25):
+    n = rng.randint(1, nmax) if n is None else n
+    cplx = (rng.random() < 0.55) if cplx is None else cplx
     akind = rng.choice(akinds)
     if akind == "pd":
         A = _herm_pd(rng, n, cplx)
     elif akind == "psd":
         A = _herm_pd(rng, n, cplx, shift=0)
+    elif akind == "eye":
+        A = [[1 if i == j else 0, 0] for i in range(n) for j in range(n)]
     else:
         A = _herm_any(rng, n, cplx)
-    pk = rng.choice(["none", "none", "diag", "dense", "ident"])
-    if pk == "ident":
-        # a preconditioner that returns its input OBJECT (sigpy.linop.Identity / lambda r: r): valid (the
-        # identity is Hermitian PD) and the only way to observe whether __init__ copies z into p
-        P = ["ident", [[1, 0] for _ in range(n)]]
-    elif pk == "diag":
-        P = ["diag", [[rng.randint(1, 5), 0] for _ in range(n)]]
-    elif pk == "dense":
-        P = ["dense", _herm_pd(rng, n, cplx)]
-    else:
-        P = ["none", []]
+    P, pimpl = _gen_P(rng, n, cplx)
     x0 = [[0, 0]] * n if rng.random() < 0.4 else [_rc(rng, cplx) for _ in range(n)]
     b = [_rc(rng, cplx, -4, 4) for _ in range(n)]
     if rng.random() < 0.08:  # start at the solution / zero rhs
         b = [[0, 0]] * n
-    return dict(n=n, cplx=cplx, akind=akind, A=A, b=b, x0=x0, P=P,
-                form=rng.choice(["linop", "func"]),
+    form = rng.choice(["linop", "func"])
+    inst = dict(n=n, cplx=cplx, akind=akind, A=A, b=b, x0=x0, P=P, form=form,
                 max_iter=rng.choice([1, 2, n, n + 2, 0 if rng.random() < 0.3 else n + 1]),
                 tol=rng.choice(["0", "0", "0", "1/2", "2", "-1"]))
+    if rng.random() < plainish:
+        return inst          # the plain configuration: contiguous native-dtype arrays, MatMul / lambda, no scaling
+    inst["pimpl"] = pimpl
+    inst["shape"] = _gen_shape(rng, n, form)
+    if akind == "eye":
+        # the operator that returns its argument OBJECT (Identity Linop / lambda v: v), or the identity as a matrix
+        inst["aimpl"] = rng.choice(["eyeobj", "eyeobj", "plain"])
+    elif form == "linop":
+        inst["aimpl"] = rng.choice(["plain", "plain", "sum"])
+        if inst["aimpl"] == "sum":
+            inst["A1"] = [_rc(rng, cplx) for _ in range(n * n)]
+    else:
+        inst["aimpl"] = rng.choice(["plain", "plain", "buf"])
+    inst["layout"] = dict(x=rng.choice(LAYOUTS), b=rng.choice(LAYOUTS), bro=rng.random() < 0.3)
+    dt = dict(b="native", x="native")
+    if rng.random() < 0.25:
+        dt["b"] = rng.choice(["int", "real"]) if cplx else "int"
+        inst["b"] = [[a, 0] for a, _ in inst["b"]]
+    if not cplx and rng.random() < 0.15:
+        dt["x"] = "complex"
+    inst["dt"] = dt
+    if rng.random() < 0.4:
+        inst["scale"] = _gen_scale(rng, inst)
+    return inst
 
 
-def _mat(vals, n, mode, cplx):
+def shape_of(inst):
+    if "shape" in inst:
+        return tuple(inst["shape"])
+    return (inst["n"], 1) if inst["form"] == "linop" else (inst["n"],)
+
+
+def scale_of(inst, mode):
+    """(sa, sb, sp): the float run of a scaled instance solves (2^sa A) x = 2^sb b from 2^(sb-sa) x0 with the
+    preconditioner 2^sp P; the exact run always uses the unscaled integers"""
+    if mode == "exact" or not inst.get("scale"):
+        return (0, 0, 0)
+    return tuple(inst["scale"])
+
+
+def _mat(vals, n, mode, cplx, e=0):
     if mode == "exact":
         return qarr([QI(a, b) for a, b in vals], (n, n))
     M = np.array([complex(a, b) for a, b in vals]).reshape(n, n)
-    return M if cplx else M.real.copy()
+    M = M if cplx else M.real.copy()
+    return M * 2.0 ** e if e else M
 
 
-def _vec(vals, mode, cplx, shape):
+def _vec(vals, mode, cplx, shape, e=0, dtype=None):
     if mode == "exact":
         return qarr([QI(a, b) for a, b in vals], shape)
     v = np.array([complex(a, b) for a, b in vals]).reshape(shape)
-    return v if cplx else v.real.copy()
+    v = v if cplx else v.real.copy()
+    if e:
+        v = v * 2.0 ** e
+    if dtype == "int":
+        v = np.array([int(round(z.real)) for z in v.ravel()], dtype=np.int64).reshape(shape)
+    elif dtype == "real":
+        v = v.real.copy()
+    elif dtype == "complex":
+        v = v.astype(complex)
+    return v
 
 
-def build(inst, mode):
-    """(A callable, b, x, P callable|None) for the real class; mode 'exact' | 'float'"""
+def _layout(v, lay, mode):
+    """the logical array v held as layout `lay`: (array handed to sigpy, larger owning array or None)"""
+    fill = QI(7, -7) if mode == "exact" else 7
+    if lay == "F":
+        return np.asfortranarray(v), None
+    if lay == "strided":
+        base = np.empty((2 * v.shape[0] + 1,) + v.shape[1:], dtype=v.dtype)
+        base[...] = fill
+        w = base[1::2]
+        w[...] = v
+        return w, base
+    if lay == "rev":
+        base = np.ascontiguousarray(v[::-1]).copy()
+        return base[::-1], None
+    if lay == "col":
+        base = np.empty(v.shape + (3,), dtype=v.dtype)
+        base[...] = fill
+        w = base[..., 1]
+        w[...] = v
+        return w, base
+    return v, None
+
+
+def _guards(base, lay):
+    """the cells of the owning array that do NOT belong to the caller's x"""
+    if base is None:
+        return []
+    if lay == "strided":
+        return list(base[0::2].ravel())
+    return list(base[..., 0].ravel()) + list(base[..., 2].ravel())
+
+
+def _buffered(f):
+    """the same map, written into (and returning) one persistent output buffer: an operator that re-uses its output"""
+    st = {}
+
+    def g(v):
+        out = f(v)
+        buf = st.get("buf")
+        if buf is None or buf.shape != out.shape or buf.dtype != out.dtype:
+            st["buf"] = buf = np.array(out, copy=True)
+        else:
+            buf[...] = out
+        return buf
+    return g
+
+
+def _b_sig(inst, mode):
+    return json.dumps([inst["b"], shape_of(inst), inst["cplx"], inst.get("layout", {}).get("b"), inst.get("layout", {}).get("bro"),
+                       inst.get("dt", {}).get("b"), scale_of(inst, mode)[1]])
+
+
+def _a_sig(inst, mode):
+    return json.dumps([inst["A"], inst.get("A1"), inst["form"], shape_of(inst), inst["cplx"], inst.get("aimpl"), scale_of(inst, mode)[0]])
+
+
+def build(inst, mode, peers=()):
+    """the arguments of the real class for one instance; mode 'exact' | 'float'.  `peers`: already built solvers of the
+    same history, whose b array / operator object is re-used when the instance asks for it (`shareb` / `sharea`) and
+    the data are identical"""
     import sigpy as sp
     n, cplx = inst["n"], inst["cplx"]
-    shape = (n, 1) if inst["form"] == "linop" else (n,)
-    M = _mat(inst["A"], n, mode, cplx)
-    if inst["form"] == "linop":
-        A = sp.linop.MatMul(shape, M)
+    shape = shape_of(inst)
+    sa, sb, sp_ = scale_of(inst, mode)
+    lay = inst.get("layout", {})
+    dt = inst.get("dt", {}) if mode == "float" else {}
+    M = _mat(inst["A"], n, mode, cplx, sa)
+    aimpl = inst.get("aimpl", "plain")
+
+    def mv(Mx):
+        if shape == (n, 1):
+            return lambda v: Mx @ v
+        return lambda v: (Mx @ v.reshape(-1)).reshape(v.shape)
+    A = None
+    j = inst.get("sharea")
+    if j is not None and j < len(peers) and peers[j] is not None and peers[j]["a_sig"] == _a_sig(inst, mode):
+        A = peers[j]["A"]
+    elif aimpl == "eyeobj":
+        A = sp.linop.Identity(shape) if inst["form"] == "linop" else (lambda v: v)
+    elif inst["form"] == "linop":
+        if aimpl == "sum":
+            M1 = _mat(inst["A1"], n, mode, cplx, sa)
+            A = sp.linop.MatMul(shape, M1) + sp.linop.MatMul(shape, M - M1)
+        else:
+            A = sp.linop.MatMul(shape, M)
     else:
-        def A(v, M=M):
-            return M @ v
-    b = _vec(inst["b"], mode, cplx, shape)
-    x = _vec(inst["x0"], mode, cplx, shape)
+        A = mv(M)
+        if aimpl == "buf":
+            A = _buffered(A)
+    j = inst.get("shareb")
+    if j is not None and j < len(peers) and peers[j] is not None and peers[j]["b_sig"] == _b_sig(inst, mode):
+        b, bbase = peers[j]["b"], None
+    else:
+        b, bbase = _layout(_vec(inst["b"], mode, cplx, shape, sb, dt.get("b")), lay.get("b", "c"), mode)
+        if lay.get("bro"):
+            b.setflags(write=False)
+    x, xbase = _layout(_vec(inst["x0"], mode, cplx, shape, sb - sa, dt.get("x")), lay.get("x", "c"), mode)
     kind, data = inst["P"]
+    pimpl = inst.get("pimpl", "plain")
     if kind == "none":
         P = None
     elif kind == "ident":
-        if inst["form"] == "linop":
-            P = sp.linop.Identity(shape)
-        else:
-            def P(r):
-                return r
+        P = sp.linop.Identity(shape) if inst["form"] == "linop" else (lambda r: r)
+    elif kind == "identview":
+        P = sp.linop.Reshape(shape, shape) if inst["form"] == "linop" else (lambda r: r[...])
     elif kind == "diag":
-        d = _vec(data, mode, cplx, shape)
-
-        def P(r, d=d):
-            return d * r
+        d = _vec(data, mode, cplx, shape, sp_)
+        if pimpl == "linop":
+            P = sp.linop.Multiply(shape, d)
+        else:
+            def P(r, d=d):
+                return d * r
+            if pimpl == "buf":
+                P = _buffered(P)
     else:
-        PM = _mat(data, n, mode, cplx)
-        if inst["form"] == "linop":
+        PM = _mat(data, n, mode, cplx, sp_)
+        if shape == (n, 1) and inst["form"] == "linop" and pimpl != "buf":
             P = sp.linop.MatMul(shape, PM)
         else:
-            def P(r, PM=PM):
-                return PM @ r
-    return A, b, x, P, M
+            P = mv(PM)
+            if pimpl == "buf":
+                P = _buffered(P)
+    return dict(A=A, b=b, x=x, P=P, xbase=xbase, xlay=lay.get("x", "c"),
+                guards0=_guards(xbase, lay.get("x", "c")), a_sig=_a_sig(inst, mode), b_sig=_b_sig(inst, mode))
 
 
-def tol_value(inst):
-    return float(Fraction(inst["tol"]))
+def tol_value(inst, mode="exact"):
+    _, sb, sp_ = scale_of(inst, mode)
+    return float(Fraction(inst["tol"])) * 2.0 ** (sb + sp_ // 2)
 
 
-def snapshot(alg, x_caller):
-    return dict(x=np.array(alg.x, copy=True).ravel(), r=np.array(alg.r, copy=True).ravel(),
-                p=np.array(alg.p, copy=True).ravel(), rz=alg.rzold, resid=alg.resid,
+def _unscale(inst, mode):
+    """exact power-of-two factors that take the scaled float state back to the unscaled problem: x, r, p, rz, resid"""
+    sa, sb, sp_ = scale_of(inst, mode)
+    if (sa, sb, sp_) == (0, 0, 0):
+        return None
+    return (2.0 ** (sa - sb), 2.0 ** (-sb), 2.0 ** (-sb - sp_), 2.0 ** (-2 * sb - sp_), 2.0 ** (-sb - sp_ // 2))
+
+
+def _flat(a, f=None):
+    v = np.array(a, copy=True).ravel()
+    return v if f is None else v * f
+
+
+def snapshot(alg, bl, un=None):
+    un = un or (None,) * 5
+    x_caller = bl["x"]
+    g = _guards(bl["xbase"], bl["xlay"])
+    return dict(x=_flat(alg.x, un[0]), r=_flat(alg.r, un[1]), p=_flat(alg.p, un[2]),
+                rz=alg.rzold if un[3] is None else alg.rzold * un[3],
+                resid=alg.resid if un[4] is None else alg.resid * un[4],
                 npd=bool(alg.not_positive_definite), iter=int(alg.iter), done=bool(alg.done()),
                 x_is_caller=alg.x is x_caller, p_is_r=alg.p is alg.r,
-                xc=np.array(x_caller, copy=True).ravel())
+                p_shares_r=bool(np.shares_memory(alg.p, alg.r)),
+                guard_ok=len(g) == len(bl["guards0"]) and all(u is v or u == v for u, v in zip(g, bl["guards0"])),
+                xc=_flat(x_caller, un[0]))
 
 
 def _bits(alg):
@@ -171,39 +376,214 @@ def _bits(alg):
     return m
 
 
-def run_real(inst, mode, k, hook=None):
-    """snapshots after __init__ and after each of k updates (or an `err …` string at the end)"""
+def _same(a, b):
+    a, b = np.asarray(a), np.asarray(b)
+    if a.shape != b.shape:
+        return False
+    if a.dtype == object or b.dtype == object:
+        return bool(np.all(a == b))
+    return bool(np.array_equal(a, b, equal_nan=True))
+
+
+def run_group(insts, sched, mode, caps=None, stop_at_done=False):
+    """a HISTORY on the real class.  `sched` is a list of events
+         ["new", i]       construct solver i (its own b and x arrays, built from insts[i])
+         ["new", i, j]    construct solver i on the x array solver j has been writing into (solver j is abandoned)
+         ["step", i]      solver i .update()      (skipped after caps[i] updates / when stop_at_done and it is done())
+    Returns per solver: the snapshots after its construction and after each of its updates (an `err …` string
+    ends a history), the (p, x) it had before each update, the content of its x array just before construction,
+    and the list of changes seen in its x / r / p while ANOTHER solver was constructed or advanced."""
     from sigpy.alg import ConjugateGradient
-    A, b, x, P, M = build(inst, mode)
-    out = []
-    try:
-        with np.errstate(all="ignore"):
-            alg = ConjugateGradient(A, b, x, P=P, max_iter=inst["max_iter"], tol=tol_value(inst))
-            out.append(snapshot(alg, x))
-            for _ in range(k):
-                if hook:
-                    hook(alg)
-                alg.update()
-                out.append(snapshot(alg, x))
-                if mode == "exact" and _bits(alg) > 40000:
-                    # a correct run on these instances stays below ~3000 bits; a broken recurrence doubles the size of
-                    # the fractions with every update: keep the history so far (it already differs) and stop
-                    out.append("err fraction-blowup")
-                    break
-    except ZeroDivisionError:
-        out.append("err zerodiv")
-    except Exception as e:  # noqa
-        out.append("err %s" % type(e).__name__)
-    return out, x
+    m = len(insts)
+    S = [None] * m
+    hist = [[] for _ in range(m)]
+    pre = [[] for _ in range(m)]
+    x0 = [None] * m
+    drift = [[] for _ in range(m)]
+    steps = [0] * m
+    with np.errstate(all="ignore"):
+        for t, ev in enumerate(sched):
+            op, i = ev[0], ev[1]
+            inst = insts[i]
+            un = _unscale(inst, mode)
+            if op == "new":
+                bl = build(inst, mode, S)
+                if len(ev) > 2 and S[ev[2]] is not None:
+                    old = S[ev[2]]
+                    old["live"] = False
+                    bl["x"], bl["xbase"], bl["xlay"], bl["guards0"] = old["x"], old["xbase"], old["xlay"], old["guards0"]
+                x0[i] = _flat(bl["x"], None if un is None else un[0])
+                bl["live"] = True
+                S[i] = bl
+                try:
+                    bl["alg"] = ConjugateGradient(bl["A"], bl["b"], bl["x"], P=bl["P"], max_iter=inst["max_iter"],
+                                                  tol=tol_value(inst, mode))
+                    hist[i].append(snapshot(bl["alg"], bl, un))
+                except ZeroDivisionError:
+                    hist[i].append("err zerodiv")
+                    bl["live"] = False
+                except Exception as e:  # noqa
+                    hist[i].append("err %s" % type(e).__name__)
+                    bl["live"] = False
+            else:
+                bl = S[i]
+                if bl is None or not bl["live"]:
+                    continue
+                alg = bl["alg"]
+                if (caps is not None and steps[i] >= caps[i]) or (stop_at_done and alg.done()):
+                    continue
+                steps[i] += 1
+                pre[i].append((_flat(alg.p, None if un is None else un[2]), _flat(alg.x, None if un is None else un[0])))
+                try:
+                    alg.update()
+                    hist[i].append(snapshot(alg, bl, un))
+                    if mode == "exact" and _bits(alg) > 40000:
+                        # a correct run on these instances stays below ~3000 bits; a broken recurrence doubles the size of
+                        # the fractions with every update: keep the history so far (it already differs) and stop
+                        hist[i].append("err fraction-blowup")
+                        bl["live"] = False
+                except ZeroDivisionError:
+                    hist[i].append("err zerodiv")
+                    bl["live"] = False
+                except Exception as e:  # noqa
+                    hist[i].append("err %s" % type(e).__name__)
+                    bl["live"] = False
+            # no other live solver may have changed
+            for j in range(m):
+                o = S[j]
+                if j == i or o is None or not o["live"] or not hist[j] or isinstance(hist[j][-1], str):
+                    continue
+                last = hist[j][-1]
+                unj = _unscale(insts[j], mode) or (None,) * 5
+                for f, arr, fac in (("x", o["alg"].x, unj[0]), ("r", o["alg"].r, unj[1]), ("p", o["alg"].p, unj[2])):
+                    if not _same(_flat(arr, fac), last[f]):
+                        drift[j].append(dict(field=f, event=t, by=list(ev), after_own_updates=steps[j]))
+                        last[f] = _flat(arr, fac)   # report each change once
+    return dict(hist=hist, pre=pre, x0=x0, drift=drift)
 
 
-def model_line(inst, k):
+def run_real(inst, mode, k):
+    """one solver on its own: snapshots after __init__ and after each of k updates"""
+    g = run_group([inst], [["new", 0]] + [["step", 0]] * k, mode)
+    return g["hist"][0], g
+
+
+# ---- histories with several solvers ----------------------------------------------------------
+HIST_KINDS = ("lockstep", "lockstep", "late-start", "random", "sequential", "warm-start")
+
+
+def n_updates(inst):
+    return max(inst["max_iter"], 0) + 2
+
+
+def gen_group(rng, nmax=5):
+    """2-3 instances + a schedule.  The members mostly have the same vector shape and dtype (two solves of one
+    size: CG vs PCG on one system, two forms of one operator, two systems of one size), sometimes anything."""
+    kind = rng.choice(HIST_KINDS)
+    m = 2 if kind == "warm-start" or rng.random() < 0.7 else 3
+    base = gen_instance(rng, nmax=nmax, akinds=("pd", "pd", "pd", "pd", "pd", "indef", "eye"))
+    if base["max_iter"] < 2 and rng.random() < 0.7:
+        base["max_iter"] = base["n"] + 1
+    if kind == "warm-start":
+        base.pop("scale", None)
+    insts = [base]
+    for q in range(1, m):
+        rel = "same-size" if kind == "warm-start" else rng.choice(["same-system", "same-system", "same-size", "same-size", "any"])
+        if rel == "any":
+            insts.append(gen_instance(rng, nmax=nmax, akinds=("pd", "pd", "pd", "indef")))
+            continue
+        if rel == "same-system":
+            c = json.loads(json.dumps(base))
+            what = rng.choice(["P", "P", "x0", "form", "maxiter"])
+            if what == "P":
+                c["P"], c["pimpl"] = _gen_P(rng, c["n"], c["cplx"])
+                if c.get("scale"):
+                    c["scale"][2] = 0 if c["P"][0] not in ("diag", "dense") else c["scale"][2]
+            elif what == "x0":
+                c["x0"] = [_rc(rng, c["cplx"]) for _ in range(c["n"])]
+            elif what == "form" and c.get("aimpl", "plain") in ("plain", "buf", "sum"):
+                c["form"] = "func" if c["form"] == "linop" else "linop"
+                c["aimpl"] = "plain"
+                c.pop("A1", None)
+                if "shape" in c:
+                    c["shape"] = _gen_shape(rng, c["n"], c["form"])
+                if c["P"][0] == "dense" and c.get("pimpl") != "buf":
+                    c["pimpl"] = "plain"
+            else:
+                c["max_iter"] = rng.choice([2, c["n"], c["n"] + 2])
+            if rng.random() < 0.5:
+                c["shareb"] = 0
+            if rng.random() < 0.5:
+                c["sharea"] = 0
+        else:
+            # the same vector shape; mostly the same dtype as well, sometimes real next to complex
+            same_dt = kind == "warm-start" or rng.random() < 0.75
+            c = gen_instance(rng, n=base["n"], cplx=base["cplx"] if same_dt else not base["cplx"],
+                             akinds=("pd", "pd", "pd", "indef"), plainish=0)
+            c["form"] = base["form"]
+            for f in ("shape", "dt", "scale") if same_dt else ("shape",):
+                if f in base:
+                    c[f] = json.loads(json.dumps(base[f]))
+                else:
+                    c.pop(f, None)
+            if "layout" not in base:
+                c.pop("layout", None)
+            c["aimpl"] = "plain" if (c.get("aimpl") == "buf" and c["form"] == "linop") or (c.get("aimpl") == "sum" and c["form"] == "func") else c.get("aimpl", "plain")
+            if c["aimpl"] == "sum" and "A1" not in c:
+                c["A1"] = [_rc(rng, c["cplx"]) for _ in range(c["n"] ** 2)]
+            if c.get("dt", {}).get("b") in ("int", "real"):
+                c["b"] = [[a, 0] for a, _ in c["b"]]
+            if c.get("scale") and c["P"][0] not in ("diag", "dense"):
+                c["scale"][2] = 0
+        if c["max_iter"] < 2 and rng.random() < 0.7:
+            c["max_iter"] = c["n"] + 1
+        insts.append(c)
+    K = [n_updates(i) for i in insts]
+    sched = []
+    if kind == "lockstep":
+        sched = [["new", i] for i in range(m)]
+        for k in range(max(K)):
+            sched += [["step", i] for i in range(m) if k < K[i]]
+    elif kind == "late-start":
+        t = rng.randint(1, max(1, K[0] - 2))
+        sched = [["new", 0]] + [["step", 0]] * t + [["new", i] for i in range(1, m)]
+        left = [K[0] - t] + K[1:]
+        for k in range(max(left)):
+            sched += [["step", i] for i in range(m) if k < left[i]]
+    elif kind == "random":
+        todo = [[["new", i]] + [["step", i]] * K[i] for i in range(m)]
+        sched.append(todo[0].pop(0))
+        while any(todo):
+            i = rng.choice([i for i in range(m) if todo[i]])
+            sched.append(todo[i].pop(0))
+    elif kind == "sequential":
+        for i in range(m):
+            sched += [["new", i]] + [["step", i]] * K[i]
+    else:  # warm-start: solver 1 continues on the array solver 0 wrote into (other rhs / preconditioner / max_iter)
+        t = rng.randint(1, max(1, insts[0]["max_iter"]))
+        insts[1].pop("shareb", None)
+        sched = [["new", 0]] + [["step", 0]] * t + [["new", 1, 0]] + [["step", 1]] * K[1]
+    return dict(kind=kind, insts=insts, sched=sched)
+
+
+def _pspec(inst):
     kind, data = inst["P"]
-    ps = "none" if kind == "none" else "%s:%s" % ("diag" if kind == "ident" else kind, ",".join(fmt_q(QI(a, b)) for a, b in data))
+    if kind == "none":
+        return "none"
+    return "%s:%s" % ("dense" if kind == "dense" else "diag", ",".join(fmt_q(QI(a, b)) for a, b in data))
+
+
+def _x0_strings(inst, x0=None):
+    if x0 is None:
+        return [fmt_q(QI(a, b)) for a, b in inst["x0"]]
+    return [fmt_q(QI._c(z)) for z in x0]
+
+
+def model_line(inst, k, x0=None):
     return "C12 run n=%d A=%s b=%s x=%s P=%s maxiter=%d tol=%s k=%d" % (
         inst["n"], ",".join(fmt_q(QI(a, b)) for a, b in inst["A"]),
-        ",".join(fmt_q(QI(a, b)) for a, b in inst["b"]), ",".join(fmt_q(QI(a, b)) for a, b in inst["x0"]),
-        ps, inst["max_iter"], inst["tol"], k)
+        ",".join(fmt_q(QI(a, b)) for a, b in inst["b"]), ",".join(_x0_strings(inst, x0)),
+        _pspec(inst), inst["max_iter"], inst["tol"], k)
 
 
 def parse_model(reply):
@@ -261,9 +641,14 @@ def compare_exact(inst, real, model):
             diffs.append("update %d field done: real=%s model=%s" % (k, v["done"], m["done"]))
         if not s["x_is_caller"]:
             diffs.append("update %d: alg.x is no longer the caller's array" % k)
-        # `p is r` exactly when no private copy was made (max_iter <= 1) and there is no preconditioner
+        if not s["guard_ok"]:
+            diffs.append("update %d: cells of the caller's larger array outside x were changed" % k)
+        # `p is r` exactly when no private copy was made (max_iter <= 1) and there is no preconditioner (or one that
+        # returns its argument); p shares storage with r exactly then or when the preconditioner returns a view
         if s["p_is_r"] != (m["alias"] == "1" and inst["P"][0] in ("none", "ident")):
             diffs.append("update %d: p-is-r aliasing real=%s model alias=%s" % (k, s["p_is_r"], m["alias"]))
+        if s["p_shares_r"] != (m["alias"] == "1" and inst["P"][0] in ("none", "ident", "identview")):
+            diffs.append("update %d: p shares storage with r: real=%s model alias=%s" % (k, s["p_shares_r"], m["alias"]))
     return diffs
 
 
@@ -279,10 +664,8 @@ def _finite(s):
 
 def float_step_lines(inst, real):
     """one `C12 step` request per float update: the float state before it, as exact dyadic rationals"""
-    kind, data = inst["P"]
-    ps = "none" if kind == "none" else "%s:%s" % ("diag" if kind == "ident" else kind, ",".join(fmt_q(QI(a, b)) for a, b in data))
     head = "C12 step n=%d A=%s P=%s maxiter=%d tol=%s" % (
-        inst["n"], ",".join(fmt_q(QI(a, b)) for a, b in inst["A"]), ps, inst["max_iter"], inst["tol"])
+        inst["n"], ",".join(fmt_q(QI(a, b)) for a, b in inst["A"]), _pspec(inst), inst["max_iter"], inst["tol"])
     lines = []
     for s in real[:-1]:
         if isinstance(s, str) or not _finite(s):
@@ -297,7 +680,8 @@ def compare_float(inst, real, replies):
     """float run against the exact machine, ONE update at a time: the float state before the update
     is an exact rational state; the float state after it must agree with the machine's exact
     successor to 1e-9 of the state's scale (observed rounding <= 1e-13).  Stops comparing once the
-    residual has collapsed to rounding noise (rz < 1e-20 rz0), where the sign of p^H A p is noise."""
+    residual has collapsed to rounding noise (rz < 1e-20 rz0), where the sign of p^H A p is noise.
+    (A scaled instance is compared after the exact power-of-two unscaling of its state.)"""
     diffs = []
     if isinstance(real[0], str):
         return ["float run raised %s in __init__" % real[0]]
@@ -337,37 +721,54 @@ def compare_float(inst, real, replies):
             diffs.append("update %d field rz (float): real=%r model=%s" % (k + 1, float(s["rz"]), rz))
         if abs(float(s["resid"]) ** 2 - float(Fraction(m["resid2"]))) > 1e-9 * (1e-300 + abs(rz) + 1e-6 * rz0):
             diffs.append("update %d field resid (float): real=%r model=sqrt(%s)" % (k + 1, s["resid"], float(Fraction(m["resid2"]))))
-        if s["iter"] != int(m["iter"]) or not s["x_is_caller"]:
-            diffs.append("update %d field iter/x-identity (float)" % (k + 1))
+        if s["iter"] != int(m["iter"]) or not s["x_is_caller"] or not s["guard_ok"]:
+            diffs.append("update %d field iter/x-identity/guard cells (float)" % (k + 1))
     return diffs
 
 
-def n_updates(inst):
-    return max(inst["max_iter"], 0) + 2
+def _count_inst(ctx, inst, pre=""):
+    ctx.count(pre + "n=%d" % inst["n"])
+    ctx.count(pre + "A:%s/%s" % (inst["akind"], "complex" if inst["cplx"] else "real"))
+    ctx.count(pre + "P:%s/%s" % (inst["P"][0], inst.get("pimpl", "plain")))
+    ctx.count(pre + "form:%s/%s/%dd" % (inst["form"], inst.get("aimpl", "plain"), len(shape_of(inst))))
+    lay = inst.get("layout", {})
+    ctx.count(pre + "layout:x=%s,b=%s%s" % (lay.get("x", "c"), lay.get("b", "c"), ",b-readonly" if lay.get("bro") else ""))
+    ctx.count(pre + "dtype:b=%s,x=%s" % (inst.get("dt", {}).get("b", "native"), inst.get("dt", {}).get("x", "native")))
+    ctx.count(pre + ("scaled" if inst.get("scale") else "unscaled"))
+    ctx.count(pre + ("max_iter-n=%d" % (inst["max_iter"] - inst["n"]) if inst["max_iter"] > 2 else "max_iter=%d" % inst["max_iter"]))
+
+
+def _drift_text(drift):
+    return ["solver state changed while another solver was %s: field %s after %d own updates (event %d)" % (
+        "constructed" if d["by"][0] == "new" else "advanced", d["field"], d["after_own_updates"], d["event"]) for d in drift]
 
 
 def correspond(ctx):
-    ctx.rule = ("instance = (n 1..8, real/complex Hermitian integer A [PD | PSD-singular | indefinite], b, x0 zero/non-zero, "
-                "P none/diag/dense PD, A as MatMul Linop or function, max_iter in {0,1,2,n,n+1,n+2}, tol); the real "
-                "ConjugateGradient runs over exact Gaussian rationals and x,r,p,rzold,resid,flag,iter,done(),"
-                "x-is-caller,p-is-r are compared with the Lean machine after __init__ and after each of "
-                "max_iter+2 updates; distinct by protocol line; non-trivial = at least one update changes x")
+    ctx.rule = ("instance = (n 1..8, real/complex Hermitian integer A [PD | PSD-singular | indefinite | identity], b, x0 zero/non-zero, "
+                "P none/diag/dense PD/identity returning its argument or a view of it, P and A as sigpy Linops (MatMul, sum, Multiply, "
+                "Identity, Reshape), plain functions or functions re-using an output buffer, vector shape (n,1)/(n,)/2-D, x and b "
+                "contiguous / Fortran / strided / reversed / column views, b read-only / int64 / real dtype, power-of-two scaling of "
+                "A, b, P (float run), max_iter in {0,1,2,n,n+1,n+2}, tol); the real ConjugateGradient runs over exact Gaussian "
+                "rationals and x,r,p,rzold,resid,flag,iter,done(),x-is-caller,p-is-r,p-shares-r,guard cells are compared with the "
+                "Lean machine after __init__ and after each of max_iter+2 updates; stream `history`: 2-3 such solvers alive together "
+                "(lock-step / late start / random interleaving / one after the other / warm start on the previous solver's array, "
+                "optionally the same b array and operator object), each compared with the machine's run of ITS instance and "
+                "required not to change during the others' events; distinct by protocol line; non-trivial = at least one update changes x")
     n_inst = 200 if ctx.tier == "quick" else 1500
     insts = [gen_instance(ctx.rng) for _ in range(n_inst)]
     lines = [model_line(i, n_updates(i)) for i in insts]
     replies = ctx.driver(lines)
-    bad_e = bad_f = 0
+    bad_e = bad_f = n_done = 0
     for inst, ln, rep in zip(insts, lines, replies):
+        if bad_e + bad_f >= 60:
+            break    # the streams are broken beyond doubt (a broken recurrence makes every further exact run slow): go and search
+        n_done += 1
         model = parse_model(rep)
         real, _ = run_real(inst, "exact", n_updates(inst))
         moved = len(model) > 1 and not isinstance(model[1], str) and model[1]["x"] != model[0]["x"]
-        ctx.case(ln, nontrivial=moved,
+        ctx.case(ln + json.dumps([inst.get(f) for f in ("form", "shape", "aimpl", "pimpl", "layout", "dt", "scale")]), nontrivial=moved,
                  sample=dict(line=ln[:160], states=len(model)) if ctx.evaluations % 23 == 0 else None)
-        ctx.count("n=%d" % inst["n"])
-        ctx.count("A:%s/%s" % (inst["akind"], "complex" if inst["cplx"] else "real"))
-        ctx.count("P:%s" % inst["P"][0])
-        ctx.count("form:%s" % inst["form"])
-        ctx.count("max_iter-n=%d" % (inst["max_iter"] - inst["n"]) if inst["max_iter"] > 2 else "max_iter=%d" % inst["max_iter"])
+        _count_inst(ctx, inst)
         ctx.traces += len(model)
         d = compare_exact(inst, real, model)
         if d:
@@ -379,9 +780,21 @@ def correspond(ctx):
             bad_f += 1
             ctx.disagree("float", dict(inst=inst, mode="float"), d[:3], "Lean C12.run")
     ctx.oblige("correspondence:C12.exact", "correspondence", bad_e == 0,
-               "%d of %d instances differ from the Lean machine over exact Gaussian rationals" % (bad_e, n_inst))
+               "%d of %d instances differ from the Lean machine over exact Gaussian rationals" % (bad_e, n_done))
     ctx.oblige("correspondence:C12.float", "correspondence", bad_f == 0,
-               "%d of %d float instances: some update differs from the exact machine's successor of the same (dyadic) state by more than 1e-9" % (bad_f, n_inst))
+               "%d of %d float instances: some update differs from the exact machine's successor of the same (dyadic) state by more than 1e-9" % (bad_f, n_done))
+    # ---- histories: several solvers alive together, each against the machine's run of its own instance
+    n_grp = 50 if ctx.tier == "quick" else 400
+    bad_h = n_done = 0
+    for _ in range(n_grp):
+        if bad_h >= 12:
+            break
+        n_done += 1
+        grp = gen_group(ctx.rng)
+        bad_h += bool(correspond_group(ctx, grp))
+    ctx.oblige("correspondence:C12.history", "correspondence", bad_h == 0,
+               "%d of %d histories with several live solvers: some solver differs from the Lean machine's run of its own instance, "
+               "or changed while another solver was constructed / advanced" % (bad_h, n_done))
     ctx.trusted += [
         "translator harness/translate/gen_c12.py (python ast -> Lean): its reading of util.axpy / util.xpay / xp.real(xp.vdot) / "
         ".copy() / .item() / `** 0.5` as the operations of C12.Ops and of numpy arrays as objects updated in place; validated by "
@@ -394,22 +807,57 @@ def correspond(ctx):
         "operation order as for float dtypes",
         "Lean `Rat` arithmetic of the compiled driver is the arithmetic the theorems are about (Mathlib's ℝ/ℂ "
         "instance of the same generic definition)",
+        "the machine models ONE solver; that solver objects do not interact (module-level state, shared buffers) is not a "
+        "theorem but checked by the `history` stream and the history oracle on the real class",
     ]
 
 
+def correspond_group(ctx, grp):
+    """one history, exact and float; returns the number of disagreements it registered"""
+    insts, sched = grp["insts"], grp["sched"]
+    nbad = 0
+    for mode in ("exact", "float"):
+        g = run_group(insts, sched, mode)
+        warm = {ev[1] for ev in sched if ev[0] == "new" and len(ev) > 2}
+        for i, inst in enumerate(insts):
+            real = g["hist"][i]
+            if not real:
+                continue
+            x0 = g["x0"][i] if i in warm else None
+            # a solver abandoned for a warm start only got the updates scheduled before the hand-over
+            k = sum(1 for ev in sched if ev == ["step", i]) if (warm and i == 0) else n_updates(inst)
+            if mode == "exact":
+                ln = model_line(inst, k, x0)
+                model = parse_model(ctx.driver([ln])[0])
+                ctx.case(("history", grp["kind"], i, ln, json.dumps(sched)), nontrivial=len(model) > 1,
+                         sample=dict(history=grp["kind"], solvers=len(insts), events=len(sched)) if ctx.evaluations % 29 == 0 else None)
+                _count_inst(ctx, inst, "history:")
+                ctx.count("history:%s/%d solvers" % (grp["kind"], len(insts)))
+                ctx.traces += len(model)
+                d = compare_exact(inst, real, model)
+            else:
+                # (a warm start of the float run is whatever the float predecessor left: the step lines carry the state)
+                d = compare_float(inst, real, ctx.driver(float_step_lines(inst, real)))
+            d = d + _drift_text(g["drift"][i])
+            if d:
+                nbad += 1
+                ctx.disagree("history", dict(group=grp, mode=mode, solver=i), d[:3], "Lean C12.run of the solver's own instance")
+    return nbad
+
+
 # ---- the property's own oracle ---------------------------------------------------------------
-def _exact_problem(inst):
+def _exact_problem(inst, x0=None):
     n = inst["n"]
     A = qarr([QI(a, b) for a, b in inst["A"]], (n, n))
     P = None
-    if inst["P"][0] in ("diag", "ident"):
+    if inst["P"][0] in ("diag", "ident", "identview"):
         P = qarr([QI(0, 0)] * (n * n), (n, n))
         for i, (a, b) in enumerate(inst["P"][1]):
             P[i, i] = QI(a, b)
     elif inst["P"][0] == "dense":
         P = qarr([QI(a, b) for a, b in inst["P"][1]], (n, n))
     b = qarr([QI(a, c) for a, c in inst["b"]])
-    x0 = qarr([QI(a, c) for a, c in inst["x0"]])
+    x0 = qarr([QI(a, c) for a, c in inst["x0"]]) if x0 is None else qarr([QI._c(z) for z in x0])
     return A, P, b, x0
 
 
@@ -483,30 +931,29 @@ def _f(v):
     return np.array([complex(float(z.re), float(z.im)) for z in v])
 
 
-def key_of(inst, what):
-    return "C12:%s:%s" % (what, "P-" + inst["P"][0])
+def key_of(inst, what, tag=""):
+    return "C12:%s:%s%s" % (what, "P-" + inst["P"][0], tag)
 
 
-def check_oracle(ctx, inst, mode, origin):
-    """the statement of C12 on the real class for one PD (or indefinite: curvature clause only)
-    instance; returns True when it holds"""
-    A, P, b, x0 = _exact_problem(inst)
+def k_oracle(inst):
+    return min(max(inst["max_iter"], 0), inst["n"] + 2)
+
+
+def judge(ctx, inst, mode, snaps, pre, case, origin, x0=None, tag="", drift=()):
+    """the statement of C12 for ONE solver's history on the real class (PD: everything; indefinite: curvature clause
+    only); `x0` = the content of the caller's array before construction when it is not inst['x0'] (warm start);
+    returns True when it holds"""
+    A, P, b, x0 = _exact_problem(inst, x0)
     n, M = inst["n"], inst["max_iter"]
-    case = dict(inst=inst, mode=mode)
-    k_run = min(max(M, 0), n + 2)
-    pre = []
-
-    def hook(alg):
-        pre.append((np.array(alg.p, copy=True).ravel(), np.array(alg.x, copy=True).ravel()))
-    snaps, xc = run_real(inst, mode, k_run, hook=hook)
     exact = mode == "exact"
     ok = True
 
     def bad(what, msg, obs=None, exp=None):
         nonlocal ok
         ok = False
-        ctx.fail(key_of(inst, what), msg, case, observed=obs, expected=exp, origin=origin)
+        ctx.fail(key_of(inst, what, tag), msg, case, observed=obs, expected=exp, origin=origin)
 
+    snaps = list(snaps)
     if snaps and snaps[-1] == "err fraction-blowup":
         snaps = snaps[:-1]  # judge the history up to there (a correct run never gets here)
     if any(isinstance(s, str) for s in snaps):
@@ -517,7 +964,13 @@ def check_oracle(ctx, inst, mode, origin):
             if not _finite(s_):
                 bad("non-finite", "after %d updates the float solver state contains inf/nan" % k)
                 return False
-    if inst["akind"] != "pd":
+    # the iterate (caller's array) and the tracked residual belong to this solver alone
+    for d in drift:
+        if d["field"] in ("x", "r"):
+            bad("interference", "after %d own updates the solver's %s changed while another solver was %s" % (
+                d["after_own_updates"], "iterate x (the caller's array)" if d["field"] == "x" else "tracked residual r",
+                "constructed" if d["by"][0] == "new" else "advanced"), obs=d)
+    if inst["akind"] not in PD_KINDS:
         # non-positive curvature: the update that meets p^H A p <= 0 must leave x unchanged, set the flag, be done
         for k in range(1, len(snaps)):
             p_before, x_before = pre[k - 1]
@@ -537,7 +990,7 @@ def check_oracle(ctx, inst, mode, origin):
                 break
         return ok
     xstar = solve_exact(A, b)
-    opt = krylov_optima(A, P, b, x0, k_run)
+    opt = krylov_optima(A, P, b, x0, max(len(snaps) - 1, 0))
     e_prev = None
     # float CG loses conjugacy at the rate of cond(PA): observed deviation from the exact optimum <= 2.4e-8
     # (P none/diag, n <= 12, 240 instances) and up to 5e-4 with a dense P, whose float optimality is therefore not
@@ -546,10 +999,12 @@ def check_oracle(ctx, inst, mode, origin):
     float_opt = inst["P"][0] != "dense"
     for k, s in enumerate(snaps):
         xk = s["x"] if exact else None
-        # (5) the caller's array holds the iterate
+        # (5) the caller's array holds the iterate (and nothing around it was written)
         if (exact and fmt_qlist(s["xc"]) != fmt_qlist(s["x"])) or \
                 (not exact and not np.array_equal(np.asarray(s["xc"]), np.asarray(s["x"]))):
             bad("caller-array", "after %d updates the solution is not in the array the caller passed" % k)
+        if not s["guard_ok"]:
+            bad("caller-array", "after %d updates cells of the caller's larger array that do not belong to x were overwritten" % k)
         # (1) Krylov optimality
         if exact:
             if fmt_qlist(xk) != fmt_qlist(opt[k]):
@@ -594,6 +1049,35 @@ def check_oracle(ctx, inst, mode, origin):
     return ok
 
 
+def check_oracle(ctx, inst, mode, origin):
+    """the statement of C12 on the real class for one solver on its own"""
+    k = k_oracle(inst)
+    g = run_group([inst], [["new", 0]] + [["step", 0]] * k, mode)
+    return judge(ctx, inst, mode, g["hist"][0], g["pre"][0], dict(inst=inst, mode=mode), origin)
+
+
+def check_oracle_group(ctx, grp, mode, origin):
+    """the statement of C12 for EVERY solver of a history (several live solvers / warm start): each solver is judged on
+    its own system after each of its own updates, up to where the canonical loop would stop it"""
+    insts, sched = grp["insts"], grp["sched"]
+    g = run_group(insts, sched, mode, caps=[k_oracle(i) for i in insts], stop_at_done=True)
+    warm = {ev[1] for ev in sched if ev[0] == "new" and len(ev) > 2}
+    live_together = grp["kind"] not in ("sequential", "warm-start")
+    tag = ":interleaved" if live_together else ":" + grp["kind"]
+    ok = True
+    for i, inst in enumerate(insts):
+        if not g["hist"][i]:
+            continue
+        x0 = None
+        if i in warm:
+            x0 = g["x0"][i]
+            if mode == "float" and not np.all(np.isfinite(np.asarray(x0, dtype=complex))):
+                continue
+        ok = judge(ctx, inst, mode, g["hist"][i], g["pre"][i], dict(group=grp, mode=mode, solver=i), origin,
+                   x0=x0, tag=tag, drift=g["drift"][i]) and ok
+    return ok
+
+
 def search(ctx, budget):
     rng = ctx.rng
     enough = 40  # failing inputs after which the search stops (one suffices; a broken recurrence makes each exact run slow)
@@ -601,14 +1085,18 @@ def search(ctx, budget):
         if len(ctx.failures) >= enough:
             break
         c = d["case"]
-        if c["inst"]["akind"] != "psd":
+        other = "float" if c["mode"] == "exact" else "exact"
+        if "group" in c:
+            check_oracle_group(ctx, c["group"], c["mode"], "disagreement")
+            check_oracle_group(ctx, c["group"], other, "disagreement")
+        elif c["inst"]["akind"] != "psd":
             check_oracle(ctx, c["inst"], c["mode"], "disagreement")
-            check_oracle(ctx, c["inst"], "float" if c["mode"] == "exact" else "exact", "disagreement")
-    n_inst = int(120 * budget)
+            check_oracle(ctx, c["inst"], other, "disagreement")
+    n_inst = int(100 * budget)
     for i in range(n_inst):
         if len(ctx.failures) >= enough:
             break
-        inst = gen_instance(rng, nmax=8 if i % 4 else 12, akinds=("pd", "pd", "pd", "pd", "pd", "indef"))
+        inst = gen_instance(rng, nmax=8 if i % 4 else 12, akinds=("pd", "pd", "pd", "pd", "pd", "pd", "indef", "eye"))
         if inst["max_iter"] == 0:
             inst["max_iter"] = inst["n"]
         inst["tol"] = "0"
@@ -616,6 +1104,19 @@ def search(ctx, budget):
             ctx.case(("oracle", mode, json.dumps(inst, sort_keys=True)))
             ctx.count("oracle:%s:%s" % (mode, inst["akind"]))
             check_oracle(ctx, inst, mode, "search")
+    n_grp = int(40 * budget)
+    for i in range(n_grp):
+        if len(ctx.failures) >= enough:
+            break
+        grp = gen_group(rng, nmax=5 if i % 4 else 7)
+        for inst in grp["insts"]:
+            if inst["max_iter"] == 0:
+                inst["max_iter"] = inst["n"]
+            inst["tol"] = "0"
+        for mode in ("exact", "float"):
+            ctx.case(("oracle-history", mode, json.dumps(grp, sort_keys=True)))
+            ctx.count("oracle-history:%s:%s/%d solvers" % (mode, grp["kind"], len(grp["insts"])))
+            check_oracle_group(ctx, grp, mode, "search")
 
 
 def replay(path):
@@ -625,11 +1126,14 @@ def replay(path):
         return 0
     c = r["case"]
     ctx = common.Ctx(PROPERTY, "quick", 0)
-    ok = check_oracle(ctx, c["inst"], c["mode"], "replay")
-    k = n_updates(c["inst"])
-    model = parse_model(ctx.driver([model_line(c["inst"], k)])[0])
-    real, _ = run_real(c["inst"], "exact", k)
-    print("model vs real (exact):", compare_exact(c["inst"], real, model)[:5] or "identical")
+    if "group" in c:
+        ok = check_oracle_group(ctx, c["group"], c["mode"], "replay")
+    else:
+        ok = check_oracle(ctx, c["inst"], c["mode"], "replay")
+        k = n_updates(c["inst"])
+        model = parse_model(ctx.driver([model_line(c["inst"], k)])[0])
+        real, _ = run_real(c["inst"], "exact", k)
+        print("model vs real (exact):", compare_exact(c["inst"], real, model)[:5] or "identical")
     for f in ctx.failures[:5]:
         print("FAIL", f["key"], f["what"], "observed=", f["observed"], "expected=", f["expected"])
     print("replay:", "property holds on this input" if ok else "property FAILS on this input")
